@@ -630,8 +630,18 @@ def trace_direction(ctx):
 
 
 # ------------------------------------------------------------------------------------------ run
-def g_part(ctx, module, cfg, consts, name, blockfn, args_of, actions, workers=1):
-    res = tlc.run(module, cfg, dump=True, workers=workers)
+def tlc_many(specs):
+    """Run several single-worker TLC models concurrently (each is sequential; the box has 16 cores).
+    specs: list of dict(module, cfg, kwargs).  Returns the results in order; the first failure is re-raised."""
+    import concurrent.futures
+
+    tlc.scratch_root()
+    with concurrent.futures.ThreadPoolExecutor(max_workers=max(1, len(specs))) as ex:
+        futs = [ex.submit(tlc.run, sp["module"], sp["cfg"], **sp.get("kwargs", {})) for sp in specs]
+        return [f.result() for f in futs]
+
+
+def g_finish(ctx, res, consts, name, blockfn, args_of, actions):
     fix_coverage(res)
     require_actions(res, actions)
     ctx.add_tlc(res, name, consts)
@@ -683,29 +693,45 @@ def selftest_binding(vs_cases):
 def run(ctx):
     n = ctx.pick(5, 6)
     vs_consts = {"N": n, "MaxLen": 3}
-    res_vs, out_vs = g_part(ctx, "ValueSets", cfg_text("ValueSets.cfg", **vs_consts), vs_consts, "ValueSets exhaustive", vs_block, lambda b: (b, n), ["AddValue", "AddRange", "Union", "MakeAny"])
+    tb_consts = ctx.pick({"Keys": '{"k1", "k2"}', "MaxCols": 2, "MaxLen": 4}, {"Keys": '{"k1", "k2"}', "MaxCols": 2, "MaxLen": 5})
+    cs1 = ctx.pick({"Items": "ItemsMid"}, {"Items": "ItemsRich"})
+    cs2 = ctx.pick({"MaxCols": 2, "MaxLen": 2}, {"MaxCols": 3, "MaxLen": 2})
+    D = {"dump": True, "workers": 1}
+    specs = [
+        {"module": "ValueSets", "cfg": cfg_text("ValueSets.cfg", **vs_consts), "kwargs": D},
+        {"module": "ConstraintTable", "cfg": cfg_text("ConstraintTable.cfg", **tb_consts), "kwargs": D},
+        {"module": "ConstraintCsv", "cfg": cfg_text("ConstraintCsvCells.cfg", **cs1), "kwargs": D},
+        {"module": "ConstraintCsv", "cfg": cfg_text("ConstraintCsvRows.cfg", **cs2), "kwargs": D},
+    ]
+    c2 = {"N": 4, "MaxLen": 4}
+    c3 = {"Keys": '{"k1", "k2", "k3"}', "MaxCols": 1, "MaxLen": 4, "CellVals": "{0, 1}"}
+    sim_n = 9
+    if not ctx.quick:
+        specs += [
+            {"module": "ValueSets", "cfg": cfg_text("ValueSets.cfg", **c2), "kwargs": D},
+            {"module": "ConstraintTable", "cfg": cfg_text("ConstraintTable.cfg", **c3), "kwargs": D},
+            {"module": "ValueSets", "cfg": cfg_text("ValueSets.cfg", N=sim_n, MaxLen=10), "kwargs": {"simulate": 3000, "depth": 11, "seed": ctx.seed, "workers": 1}},
+        ]
+    R = tlc_many(specs)
+    VS_ACT = ["AddValue", "AddRange", "Union", "MakeAny"]
+    res_vs, out_vs = g_finish(ctx, R[0], vs_consts, "ValueSets exhaustive", vs_block, lambda b: (b, n), VS_ACT)
+    res_tb, out_tb = g_finish(ctx, R[1], tb_consts, "ConstraintTable exhaustive", tab_block, lambda b: b, ["AddColumn", "Check"])
+    res_c1, out_c1 = g_finish(ctx, R[2], cs1, "ConstraintCsv exhaustive (cells)", csv_block, lambda b: b, ["Read"])
+    res_c2, out_c2 = g_finish(ctx, R[3], cs2, "ConstraintCsv exhaustive (rows)", csv_block, lambda b: b, ["Read"])
+    kinds = set(r["sample"]["hist"][-1]["kind"] for r in out_c1 + out_c2)
+    if kinds != {"data", "comment", "blank"}:
+        raise RuntimeError("vacuity: CSV row kinds replayed: %r" % (kinds,))
     extra_vs = []
     if not ctx.quick:
-        c2 = {"N": 4, "MaxLen": 4}
-        _, o2 = g_part(ctx, "ValueSets", cfg_text("ValueSets.cfg", **c2), c2, "ValueSets exhaustive (deeper)", vs_block, lambda b: (b, 4), ["AddValue", "AddRange", "Union", "MakeAny"])
+        _, o2 = g_finish(ctx, R[4], c2, "ValueSets exhaustive (deeper)", vs_block, lambda b: (b, 4), VS_ACT)
         extra_vs += o2
-        # random walks of the same spec over a larger universe; every step of every walk is compared
-        sim_n = 9
-        sim = tlc.run("ValueSets", cfg_text("ValueSets.cfg", N=sim_n, MaxLen=10), simulate=3000, depth=11, seed=ctx.seed, workers=1)
-        walks = []
-        for p in sorted(glob.glob(os.path.join(sim.sim_dir, "tr*"))):
-            walks.append((p, sim_n))
-        extra_vs += [r for rs in common.pmap(vs_walk, walks) for r in rs]
-    tb_consts = ctx.pick({"Keys": '{"k1", "k2"}', "MaxCols": 2, "MaxLen": 4}, {"Keys": '{"k1", "k2"}', "MaxCols": 2, "MaxLen": 5})
-    res_tb, out_tb = g_part(ctx, "ConstraintTable", cfg_text("ConstraintTable.cfg", **tb_consts), tb_consts, "ConstraintTable exhaustive", tab_block, lambda b: b, ["AddColumn", "Check"])
-    if not ctx.quick:
-        c3 = {"Keys": '{"k1", "k2", "k3"}', "MaxCols": 1, "MaxLen": 4, "CellVals": "{0, 1}"}
-        _, o3 = g_part(ctx, "ConstraintTable", cfg_text("ConstraintTable.cfg", **c3), c3, "ConstraintTable exhaustive (3 keys)", tab_block, lambda b: b, ["AddColumn", "Check"])
+        _, o3 = g_finish(ctx, R[5], c3, "ConstraintTable exhaustive (3 keys)", tab_block, lambda b: b, ["AddColumn", "Check"])
         out_tb += o3
-    cs1 = ctx.pick({"Items": "ItemsMid"}, {"Items": "ItemsRich"})
-    res_c1, out_c1 = g_part(ctx, "ConstraintCsv", cfg_text("ConstraintCsvCells.cfg", **cs1), cs1, "ConstraintCsv exhaustive (cells)", csv_block, lambda b: b, ["Read"], workers=8)
-    cs2 = ctx.pick({"MaxCols": 2, "MaxLen": 2}, {"MaxCols": 3, "MaxLen": 2})
-    res_c2, out_c2 = g_part(ctx, "ConstraintCsv", cfg_text("ConstraintCsvRows.cfg", **cs2), cs2, "ConstraintCsv exhaustive (rows)", csv_block, lambda b: b, ["Read"])
+        # random walks of the same spec over a larger universe; every step of every walk is compared
+        walks = [(p, sim_n) for p in sorted(glob.glob(os.path.join(R[6].sim_dir, "tr*")))]
+        if not walks:
+            raise RuntimeError("TLC -simulate wrote no walks")
+        extra_vs += [r for rs in common.pmap(vs_walk, walks) for r in rs]
 
     dis = collect(ctx, "vs", out_vs + extra_vs) + collect(ctx, "tab", out_tb) + collect(ctx, "csv", out_c1 + out_c2)
     ntr, tdis, tstats, tsamples = trace_direction(ctx)
